@@ -1061,6 +1061,36 @@ def _(w):
                                          restricted=False, expand_eri=True)
 
 
+# spin blocks of one expression: the same target names in another order, the same names
+# with another spin string (different blocks, related by a permutation of the targets)
+TXT["t2amp"] = r"\frac{{V^{ab}_{ij}}}{{e_{a}} + {e_{b}} - {e_{i}} - {e_{j}}}"
+_SPINBLOCKS = [("ijab", "abab"), ("jiab", "abab"), ("ijab", "baba"), ("ijab", "abba"),
+               ("ijba", "abab"), ("ijab", "aaaa"), ("jiba", "abab")]
+for _key in ("t2amp", "perm_sym"):
+    for _tg, _sp in _SPINBLOCKS:
+        def _mk(key, tg, sp):
+            iid = f"expr.integrate_spin({key},{tg},{sp})"
+            tid = f"expr.spatial({key},{tg},{sp},restricted)"
+            if (tg, sp) != _SPINBLOCKS[0]:
+                NAMEVAR.setdefault(f"expr.integrate_spin({key},ijab,abab)", []).append(iid)
+                if key == "t2amp":
+                    NAMEVAR.setdefault(f"expr.spatial({key},ijab,abab,restricted)",
+                                       []).append(tid)
+
+            @tmpl(iid, "expr", None, cost=1 if key == "t2amp" else 2)
+            def _(w):
+                from adcgen.spatial_orbitals import integrate_spin
+                return integrate_spin(imp(w, key, real=True, targets="ijab"), tg, sp)
+
+            if key == "t2amp":
+                @tmpl(tid, "expr", None, cost=2)
+                def _(w):
+                    from adcgen import transform_to_spatial_orbitals
+                    return transform_to_spatial_orbitals(imp(w, key, real=True, targets="ijab"), tg, sp,
+                                                         restricted=True, expand_eri=True)
+        _mk(_key, _tg, _sp)
+
+
 @tmpl("expr.wicks(wick3)", "expr", "ia", cost=2)
 def _(w):
     from adcgen import wicks
